@@ -1,0 +1,10 @@
+//go:build verif
+// +build verif
+
+package sm2
+
+// Hooks for the verification harness (build tag "verif" only): the unexported byte-level glue of the
+// key exchange / encryption.
+
+// VerifKdf exposes kdf.
+func VerifKdf(length int, x ...[]byte) ([]byte, bool) { return kdf(length, x...) }
